@@ -369,9 +369,12 @@ func (s *UtxoStore) VerifWF() bool { return s != nil && s.bucketMeta != nil }
 //@   ensures err == nil && len(k) > 0 ==> (result != nil) == bhas(ns, k)
 //@   ensures result != nil ==> len(result) > 0 && strOf(result) == bval(ns, k)
 
+// format typestate of the pending bucket: only values produced by valueUnmined (receive time + serialised
+// transaction) may be stored in it, because every reader parses that format
 //@ func putRawUnmined
 //@   props C09 C18 C19
 //@   requires ns != nil
+//@   requires[C09] ghostb("unminedFmt", strOf(v))
 //@   modifies bmap(ns)
 //@   ensures err == nil ==> len(k) > 0 && len(v) > 0 && bhas(ns, k) && bval(ns, k) == strOf(v) && bsameExcept(ns, k)
 //@   ensures err != nil ==> bsame(ns)
@@ -440,7 +443,7 @@ func (s *UtxoStore) VerifWF() bool { return s != nil && s.bucketMeta != nil }
 // ---------------------------------------------------------------------------------------------
 // L4 (C01) / V1-V2 (C17): classification of a coin at query time.
 //@ func (*UtxoStore).ScriptAddressBalance
-//@   props C01 C17 C19
+//@   props C01 C10 C17 C19
 //@   requires s != nil && s.bucketMeta != nil && s.ksmgr != nil && tx != nil && txpool != nil
 //@   requires ghostOf[*keystore.AddrManager]("curKS", s.ksmgr) != nil
 //@   modifies gmap("iterkey")
@@ -454,10 +457,10 @@ func (s *UtxoStore) VerifWF() bool { return s != nil && s.bucketMeta != nil }
 // L4 completeness half: the guards that decide whether a read credit is counted are exactly the specification
 // (confirmations against minConf; consensus spendability and mempool state; the class tests).  Together with the
 // per-iteration clauses above: a credit is added to a column exactly when the rule says so.
-//@   if#10 guard[C01] when cred.block.Height <= syncHeight && syncHeight < 18446744073709551615 :: mathint(syncHeight) - mathint(cred.block.Height) + 1 >= mathint(minConf)
-//@   if#12 guard[C01] when cred.block.Height <= syncHeight && syncHeight < 18446744073709551615 :: consensusSpendable(cred.maturity, cred.block.Height, syncHeight) && !poolSpent(txpool, cred)
-//@   if#13 guard[C01] cred.flags.Class == ClassBindingUtxo
-//@   if#15 guard[C01] cred.flags.Class == ClassStakingUtxo
+//@   if#10 guard[C01,C10] when cred.block.Height <= syncHeight && syncHeight < 18446744073709551615 :: mathint(syncHeight) - mathint(cred.block.Height) + 1 >= mathint(minConf)
+//@   if#12 guard[C01,C10] when cred.block.Height <= syncHeight && syncHeight < 18446744073709551615 :: consensusSpendable(cred.maturity, cred.block.Height, syncHeight) && !poolSpent(txpool, cred)
+//@   if#13 guard[C01,C10] cred.flags.Class == ClassBindingUtxo
+//@   if#15 guard[C01,C10] cred.flags.Class == ClassStakingUtxo
 //@   loop#2 step[C17] has(ret, strOf(cred.scriptHash)) && amt(curBal(ret, cred).Spendable) != old(amt(ret[cur(strOf(cred.scriptHash))].Spendable)) ==> consensusSpendable(cred.maturity, cred.block.Height, syncHeight)
 //@   loop#2 step[C17] has(ret, strOf(cred.scriptHash)) && amt(curBal(ret, cred).WithdrawableStaking) != old(amt(ret[cur(strOf(cred.scriptHash))].WithdrawableStaking)) ==> consensusSpendable(cred.maturity, cred.block.Height, syncHeight)
 //@   loop#2 step[C17] has(ret, strOf(cred.scriptHash)) && amt(curBal(ret, cred).WithdrawableBinding) != old(amt(ret[cur(strOf(cred.scriptHash))].WithdrawableBinding)) ==> consensusSpendable(cred.maturity, cred.block.Height, syncHeight)
@@ -576,10 +579,54 @@ func (s *UtxoStore) VerifWF() bool { return s != nil && s.bucketMeta != nil }
 // ---- C01 (rollback lemma): when a rolled-back transaction's debit is undone, the unspent marker re-created for the
 // credit it had spent carries the block of that credit (bytes 32..72 of the credit key), never anything else
 //@ func (*TxStore).Rollback
-//@   props C01
+//@   props C01 C09 C12
 //@   nopanic off
 //@   requires s != nil && s.bucketMeta != nil && s.ksmgr != nil && s.utxoStore != nil && tx != nil
 //@   modifies *
-//@   only fetchNsUnspentValueFromRawCredit
+//@   only fetchNsUnspentValueFromRawCredit valueUnmined putRawUnmined FetchBucket
 //@   dead returns 1
+//@   at "err = deleteRawAddressRecord(nsAddresses, addrKey)"#1 assert[C12] readAddressHeight(addrVal) == curHeight
+//@   at "err = deleteRawAddressRecord(nsAddresses, addrKey)"#2 assert[C12] readAddressHeight(addrVal) == curHeight
+//@   at "err = putRawUnmined(nsUnmined, txHash[:], unminedVal)" assert[C09] len(unminedVal) >= 8 && strOf(unminedVal[8:]) == ghosts("txDBBytes", &rec.MsgTx)
 //@   at "err = putRawUnspent(nsUnspent, canonicalUnspentKey(ma.Account(), &prevOut.Hash, prevOut.Index), unspentVal)" assert[C01] len(unspentVal) == 40 && len(credKey) >= 72 && bytesEq(unspentVal, 0, credKey, 32, 40)
+
+// ---- C09 (rollback re-insert format): what Rollback puts into the pending bucket for a disconnected transaction is
+// a value of that bucket's format: 8 bytes of receive time followed by the serialisation of that transaction
+//@ func valueUnmined
+//@   props C09 C19
+//@   requires rec != nil
+//@   ensures err != nil ==> result == nil
+//@   ensures err == nil ==> fresh(result) && len(result) >= 8 && strOf(result[8:]) == ghosts("txDBBytes", &rec.MsgTx)
+//@   assume err == nil ==> ghostb("unminedFmt", strOf(result))
+
+// ---- C10: flipping a deposit's history record between not-withdrawn and withdrawn deletes exactly the record in the
+// old state and writes the record in the new state (byte 43 of the key is the withdrawn flag)
+//@ func withdrawGame
+//@   props C10 C19
+//@   requires ns != nil && len(history.walletId) == 42
+//@   modifies bmap(ns)
+//@   at "err = ns.Delete(key)" assert[C10] len(key) == 88 && key[43] == 0
+//@   at "return ns.Put(keyGameHistory(&history), valueGameHistory(&history))" assert[C10] history.withdrawn
+//@ func unwithdrawGame
+//@   props C10 C19
+//@   requires ns != nil && len(history.walletId) == 42
+//@   modifies bmap(ns)
+//@   at "err = ns.Delete(key)" assert[C10] len(key) == 88 && key[43] == 1
+//@   at "return ns.Put(keyGameHistory(&history), valueGameHistory(&history))" assert[C10] !history.withdrawn
+
+// ---- C09 (settle on confirmation): the purge of double spends runs only once the confirming transaction itself is no
+// longer in the pending bucket -- while it is, it is listed as spender of its own inputs and would be purged, with its
+// unconfirmed descendants, as its own conflict
+//@ func (*TxStore).removeDoubleSpends
+//@   props C09
+//@   trusted
+//@   requires s != nil && s.bucketMeta != nil && tx != nil && rec != nil
+//@   requires[C09] !bhasI(B(tx, s.bucketMeta.nsUnmined), rec.Hash)
+//@   modifies *
+//@ func (*TxStore).insertMinedTx
+//@   props C09
+//@   nopanic off
+//@   requires s != nil && s.bucketMeta != nil && s.utxoStore != nil && sameRef(s.bucketMeta, s.utxoStore.bucketMeta) && tx != nil && rec != nil && pendingBktsDistinct(tx, s)
+//@   modifies *
+//@   only removeDoubleSpends deleteRawUnmined existsRawUnmined deleteUnminedCredits FetchBucket
+//@   dbonly existsTxRecord existsBlockRecord putBlockRecord appendRawBlockRecord putRawBlockRecord putTxRecord updateMinedBalance
